@@ -240,7 +240,7 @@ func TestC19_Corruptions(t *testing.T) {
 	check(t, "C19", 3000, func(t *rapid.T) {
 		p := wideProtocol()
 		kind := rapid.SampledFrom([]string{"request-outer", "request-inner-delta", "request-inner-signed", "request-header", "request-unexpected-type",
-			"patch", "patch-sequence", "history", "ietf-hostile", "did", "did-string", "jws-jwk", "bytes"}).Draw(t, "target")
+			"patch", "patch-sequence", "history", "empty-create", "ietf-hostile", "did", "did-string", "jws-jwk", "bytes"}).Draw(t, "target")
 		nontrivial := false
 		desc := kind
 		switch kind {
@@ -374,6 +374,30 @@ func TestC19_Corruptions(t *testing.T) {
 			runEntry(t, st, "Apply", []byte(refJCS(map[string]interface{}{"type": "create", "request": string(cr.bytes())})), kind)
 			up := newUpdate(18, entrySuffix, entryKeys().Update, pool()[ktP256][3], list, 0, 0)
 			runEntry(t, st, "Apply", []byte(refJCS(map[string]interface{}{"type": "update", "request": string(up.bytes())})), kind)
+			nontrivial = true
+			desc = kind + refJCS(list)
+		case "empty-create":
+			// a create request that is valid in every respect and whose patches leave nothing behind (removals from the empty
+			// document, a replace by an empty document): processed, resolved in long form and applied, it is answered with a
+			// document or an error
+			var list []interface{}
+			for i, n := 0, rapid.IntRange(1, 3).Draw(t, "npatches"); i < n; i++ {
+				list = append(list, rapid.SampledFrom([]interface{}{
+					map[string]interface{}{"action": "remove-public-keys", "ids": []interface{}{"k1"}},
+					map[string]interface{}{"action": "remove-services", "ids": []interface{}{"s1", "s2"}},
+					map[string]interface{}{"action": "remove-also-known-as", "uris": []interface{}{"https://gone.example/"}},
+					map[string]interface{}{"action": "replace", "document": map[string]interface{}{}},
+					map[string]interface{}{"action": "replace", "document": map[string]interface{}{"publicKeys": []interface{}{}, "services": []interface{}{}}},
+				}).Draw(t, "emptyingPatch"))
+			}
+			rec, upd := genKey(t, "rec"), genKey(t, "upd")
+			if rec.Commitment(18) == upd.Commitment(18) {
+				upd = otherKey(t, rec)
+			}
+			cr := newCreate(18, rec, upd, list, nil, "")
+			runEntry(t, st, "ParseRequest", cr.bytes(), kind)
+			runEntry(t, st, "ResolveDID", []byte("did:ion:"+cr.suffixFor(18)+":"+b64(cr.bytes())), kind)
+			runEntry(t, st, "Apply", []byte(refJCS(map[string]interface{}{"type": "create", "request": string(cr.bytes())})), kind)
 			nontrivial = true
 			desc = kind + refJCS(list)
 		case "history":
